@@ -4,8 +4,8 @@ import itertools, json, os
 import vlib
 from vlib import Check, canon
 
-OPS = ["transpose", "flatten", "flip", "sum", "add_self", "tile", "expand_dims", "reshape"]
-VARIANTS = {"transpose": [0], "flatten": [0], "flip": [0, 1], "sum": [0, 1, 2], "add_self": [0], "tile": [0, 1], "expand_dims": [0], "reshape": [0]}
+OPS = ["transpose", "flatten", "flip", "sum", "add_self", "tile", "expand_dims", "reshape", "take", "concat_self", "atleast_nd"]
+VARIANTS = {"transpose": [0], "flatten": [0], "flip": [0, 1], "sum": [0, 1, 2], "add_self": [0], "tile": [0, 1, 2, 3], "expand_dims": [0], "reshape": [0], "take": [0], "concat_self": [0, 1], "atleast_nd": [0, 1]}
 # run-time shapes each leaf kind admits (all of them within the bound)
 KIND_SHAPES = {
     "dyn": [[2, 3], [4], [2, 1, 2], [3, 3]],
@@ -26,9 +26,12 @@ def denote_args(op, v):
     if op == "transpose": return dict(axes=E)
     if op == "flip": return dict(axis=[[0]], int=True) if v == 0 else dict(axis=E, int=False)
     if op == "sum": return dict(axis=[[0]] if v in (0, 1) else [[-1]], axis_int=True, initial=E, keepdims="T" if v == 1 else "F")
-    if op == "tile": return dict(reps=[2])
+    if op == "tile": return dict(reps=[2]) if v in (0, 1) else dict(reps=[2, 1, 1, 2])     # v = 2 / 3: more repetitions (fixed-length run-time array / constants) than any leaf's dimension bound
     if op == "expand_dims": return dict(axis=[0], int=True)
     if op == "reshape": return dict(dst=[-1])
+    if op == "take": return dict(indices=[0, 0], axis=-1)          # run-time indices and axis: the extent at the axis is the number of indices
+    if op == "concat_self": return dict(axis=[0])                   # v = 0 run-time axis, v = 1 compile-time axis: the extent doubles
+    if op == "atleast_nd": return dict(nd=3)                        # v = 0 run-time nd, v = 1 compile-time nd
     return dict(none=True)
 
 
@@ -93,6 +96,8 @@ def stays_array(shape, prog):
         if op in ("flatten", "reshape"): d = 1
         elif op == "sum" and v != 1: d -= 1
         elif op == "expand_dims": d += 1
+        elif op == "atleast_nd": d = max(d, 3)
+        elif op == "tile" and v in (2, 3): d = max(d, 4)
     return True
 
 
